@@ -89,13 +89,21 @@ def one(ctx, rng, xr, frequency, direction, construct_partition):
         rec.bad("shape_hs", key, {"hs_requested": hsv, "hs_measured": h, "min_density": float(np.nanmin(ev)), "freq": f, "fp": fpv}, "constructed-hs-differs-from-requested" if not ok else "constructed-spectrum-negative")
     # --- identities between shapes -------------------------------------------------------------------
     if shape == "jonswap" and rng.random() < 0.5:
-        a = frequency.jonswap(freq=fq, fp=fp, gamma=1.0, hs=hs)
-        b = frequency.pierson_moskowitz(freq=fq, fp=fp, hs=hs)
+        sk = {} if rng.random() < 0.5 else {"sigma_a": float(rng.uniform(0.04, 0.1)), "sigma_b": float(rng.uniform(0.07, 0.14))}
+        ak = {} if rng.random() < 0.6 else {"alpha": float(rng.uniform(0.005, 0.02))}
+        hq = hs if rng.random() < 0.7 else None
+        a = frequency.jonswap(freq=fq, fp=fp, gamma=1.0, hs=hq, **sk, **ak)
+        b = frequency.pierson_moskowitz(freq=fq, fp=fp, hs=hq, **ak)
         okk = close(a.values, b.values, 1e-9, atol=1e-12 * np.abs(b.values).max())[0]
         (rec.ok("jonswap_gamma1_is_pm", key) if okk else rec.bad("jonswap_gamma1_is_pm", key, {"fp": fpv, "hs": hsv}, "jonswap-gamma-1-differs-from-pm"))
     if shape == "tma" and rng.random() < 0.5:
-        a = frequency.tma(freq=fq, fp=fp, dep=1e5, gamma=gam, hs=hs)
-        b = frequency.jonswap(freq=fq, fp=fp, gamma=gam, hs=hs)
+        # same shape parameters on both sides, defaults or not
+        sk = {} if rng.random() < 0.4 else {"sigma_a": float(rng.uniform(0.04, 0.1)), "sigma_b": float(rng.uniform(0.07, 0.14))}
+        if rng.random() < 0.3:
+            sk["alpha"] = float(rng.uniform(0.005, 0.02))
+        hq = hs if rng.random() < 0.7 else None      # with and without rescaling to a requested height
+        a = frequency.tma(freq=fq, fp=fp, dep=1e5, gamma=gam, hs=hq, **sk)
+        b = frequency.jonswap(freq=fq, fp=fp, gamma=gam, hs=hq, **sk)
         okk = close(a.values, b.values, 1e-9, atol=1e-12 * np.abs(b.values).max())[0]
         (rec.ok("tma_deep_is_jonswap", key) if okk else rec.bad("tma_deep_is_jonswap", key, {"fp": fpv, "hs": hsv, "gamma": gamv}, "tma-deep-water-differs-from-jonswap"))
     # --- spreading ---------------------------------------------------------------------------------------
